@@ -198,15 +198,18 @@ def count_statements(files):
     return n, names
 
 
-def coq_make(targets, timeout=900):
-    """make the given .vo targets (paths relative to coq/) under a shell timeout. Returns (ok, log)."""
+def coq_make(targets, timeout=900, sub=None):
+    """make the given .vo targets (paths relative to coq/) under a shell timeout, with a project file that contains
+    only Common + the property's own FILES (so other properties' files cannot interfere). Returns (ok, log)."""
+    if sub is None:
+        sub = targets[0].split("/")[0] if targets else "Common"
     with Lock("coq"):
-        mk = os.path.join(COQ, "Makefile")
-        proj = os.path.join(COQ, "_CoqProject")
-        subprocess.run([sys.executable, os.path.join(ROOT, "tools", "mkcoqproject.py")], capture_output=True)
+        r0 = subprocess.run([sys.executable, os.path.join(ROOT, "tools", "mkcoqproject.py"), sub], capture_output=True, text=True)
+        proj = os.path.join(COQ, "_CoqProject." + sub)
+        mk = os.path.join(COQ, "Makefile." + sub)
         if (not os.path.exists(mk)) or os.path.getmtime(mk) < os.path.getmtime(proj):
-            subprocess.run(["coq_makefile", "-f", "_CoqProject", "-o", "Makefile"], cwd=COQ, capture_output=True)
-        r = subprocess.run(["timeout", str(timeout), "make", "-j%d" % JOBS] + list(targets), cwd=COQ,
+            subprocess.run(["coq_makefile", "-f", "_CoqProject." + sub, "-o", "Makefile." + sub], cwd=COQ, capture_output=True)
+        r = subprocess.run(["timeout", str(timeout), "make", "-f", "Makefile." + sub, "-j%d" % JOBS] + list(targets), cwd=COQ,
                            capture_output=True, text=True)
     return r.returncode == 0, (r.stdout + r.stderr)
 
